@@ -603,7 +603,10 @@ def build_evidence(prop, tier, seed, agg, results, kf_hits, new_viols, wall, met
             samples.append(_trim(r["case"]))
     n = len([r for r in results.values() if not r.get("harness_error")])
     cov = {
-        "evaluations": max(evals, 0),
+        # cases generated and executed (deterministic for a given VERIF_SEED and tier); the number of
+        # oracle evaluations inside them (operations checked, outcome-tree leaves) is reported separately
+        "evaluations": n,
+        "oracle_evaluations": max(evals, 0),
         "distinct_nontrivial": len(keys_nt),
         "rule": meta.get("RULE", ""),
         "samples": samples or [{"note": "no case captured"}],
